@@ -69,14 +69,37 @@ Theorem C14_total : forall g ns exec s,
 Proof. exact packet_daemon_panic. Qed.
 Print Assumptions C14_total.
 
-(* for packets a remote party can put on the wire only four sites remain: BroadcastDKG reached
-   through Packet without inner packet / metadata, a proposal without leader, a reshare proposal
-   on a state without final group (Left), an abort on a state without leader *)
+(* for packets a remote party can put on the wire three sites remain: BroadcastDKG reached through
+   Packet without inner packet / metadata, and an abort or an execute signal on a DKG record that
+   names no leader *)
 Theorem C14_total_wire : forall g ns exec s,
   gossip_wire g = true -> decide_packet_daemon g ns exec = EPanic s ->
-  s = PS_bcast_nil_inner \/ s = PS_proposal_nil_leader \/ s = PS_left_state_proposal \/ s = PS_abort_nil_leader.
+  s = PS_bcast_nil_inner \/ s = PS_abort_nil_leader \/ s = PS_execute_nil_leader.
 Proof. exact packet_daemon_panic_wire. Qed.
 Print Assumptions C14_total_wire.
+
+(* and on a node whose DKG record names a leader -- every record the state machine itself writes
+   does, since Proposed refuses proposals without leader -- exactly one: the Dkg variant without
+   inner packet / metadata *)
+Theorem C14_total_wire_led : forall g ns exec s,
+  gossip_wire g = true -> n_leader_set ns = true -> decide_packet_daemon g ns exec = EPanic s ->
+  s = PS_bcast_nil_inner.
+Proof. exact packet_daemon_panic_wire_led. Qed.
+Print Assumptions C14_total_wire_led.
+
+(* regression witnesses of two repaired panics: a proposal that names no leader, and a reshare
+   proposal on a node without a group for its last epoch (a node that left), are refused in every
+   state *)
+Theorem C14_proposal_without_leader_refused : forall ns deep,
+  decide_apply (VProposal TNilLeader) ns deep = Reject.
+Proof. exact proposal_nil_leader_refused. Qed.
+Print Assumptions C14_proposal_without_leader_refused.
+
+Theorem C14_reshare_without_group_refused : forall ns deep,
+  is_fresh (n_status ns) = false -> n_fg_set ns = false ->
+  decide_apply (VProposal TReachesFinalGroup) ns deep = Reject.
+Proof. exact proposal_without_group_refused. Qed.
+Print Assumptions C14_reshare_without_group_refused.
 
 (* the other endpoints never panic in the model: DKG broadcast through the daemon (for wire
    shapes), partial beacons (every length / index / round), routed endpoints (every metadata,
@@ -121,17 +144,23 @@ Print Assumptions C14_state_unchanged_on_reject.
 (* non-vacuity: each enumerated case is reachable in the model; a well-formed packet is answered;
    the lock obligation is about non-trivial trees *)
 Example C14_nonvacuous :
-  let ns_fresh := mkN true false Fresh false false in
-  let ns_left := mkN true false Left false false in
+  let ns_fresh := mkN true false Fresh false false true false false in
+  let ns_left := mkN true false Left true false false true false in
+  let ns_left_noleader := mkN true false Left false false false true false in
+  let ns_prop_noleader := mkN true false Proposed false false false true false in
   let meta := Some (mkGM [100] 8) in
   let nobody := fun _ : str => false in
   decide_packet_daemon (mkG false meta false (VDkg DInnerNil) false) ns_fresh nobody = EPanic PS_bcast_nil_inner /\
-  decide_packet_daemon (mkG false meta false (VProposal TNilLeader) false) ns_fresh nobody = EPanic PS_proposal_nil_leader /\
-  decide_packet_daemon (mkG false meta false (VProposal TReachesFinalGroup) false) ns_left nobody = EPanic PS_left_state_proposal /\
-  decide_packet_daemon (mkG false meta false VAbort false) ns_left nobody = EPanic PS_abort_nil_leader /\
+  decide_packet_daemon (mkG false meta false (VProposal TNil) false) ns_fresh nobody = EPanic PS_proposal_nil_terms /\
+  decide_packet_daemon (mkG false meta false VAbort false) ns_left_noleader nobody = EPanic PS_abort_nil_leader /\
+  decide_packet_daemon (mkG false meta false VExecute false) ns_prop_noleader nobody = EPanic PS_execute_nil_leader /\
+  (* the repaired witnesses: refused, on the states where they used to panic *)
+  decide_packet_daemon (mkG false meta false (VProposal TNilLeader) false) ns_fresh nobody = Reject /\
+  decide_packet_daemon (mkG false meta false (VProposal TReachesFinalGroup) false) ns_left nobody = Reject /\
   decide_packet_daemon (mkG false meta false (VProposal TReachesFinalGroup) true) ns_fresh nobody = Answer /\
   decide_packet_daemon (mkG false None false VAbort false) ns_fresh nobody = Reject /\
   gossip_wire (mkG false meta false (VProposal TNilLeader) false) = true /\
+  gossip_wire (mkG false meta false (VProposal TNil) false) = false /\
   decide_partial (mkP 5 98 true false false true) (mkB true 5 3 98) = Answer /\
   decide_partial (mkP 5 97 true false false true) (mkB true 5 3 98) = Reject /\
   (2 <= length lock_entries)%nat /\ (1 <= length chan_allow)%nat.
